@@ -3,6 +3,7 @@ module verifsim
 go 1.25.0
 
 require (
+	github.com/cespare/xxhash/v2 v2.3.0
 	github.com/wundergraph/astjson v1.1.0
 	github.com/wundergraph/graphql-go-tools/execution v0.0.0-00010101000000-000000000000
 	github.com/wundergraph/graphql-go-tools/v2 v2.4.4
@@ -10,7 +11,6 @@ require (
 
 require (
 	github.com/buger/jsonparser v1.1.2 // indirect
-	github.com/cespare/xxhash/v2 v2.3.0 // indirect
 	github.com/jensneuse/byte-template v0.0.0-20231025215717-69252eb3ed56 // indirect
 	github.com/pkg/errors v0.9.1 // indirect
 	github.com/tidwall/gjson v1.18.0 // indirect
